@@ -37,6 +37,7 @@ func c17(c *Ctx) {
 	c17Store(c)
 	c17TrieOracle(c, cdb)
 	c17Storage(c, cdb)
+	c17Decode(c)
 }
 
 // ---------------------------------------------------------------- Merkle
